@@ -323,7 +323,7 @@ Theorem C01_translated_FromBytes_is_dec_os : forall ext fuel (o0 s0 : GoLite.val
           GoLite.VTuple [GoLite.VNil;
             GoLite.VStruct [("Offset"%string, GoLite.VInt (Z.of_N off)); ("Size"%string, GoLite.VInt (Z.of_N len))]]
       | None =>
-          GoLite.VTuple [GoLite.VErr "errors.New: invalid byte slice length"%string;
+          GoLite.VTuple [GoLite.VErr "errors.New"%string;
             GoLite.VStruct [("Offset"%string, o0); ("Size"%string, s0)]]
       end.
 Proof. exact (GoLiteC01_Codec.FromBytes_is_dec_os GoLiteC01.prog GoLiteC01.prog_BtoUint24 GoLiteC01.prog_BtoUint48 GoLiteC01.prog_cloneAndPad GoLiteC01.prog_OffsetAndSize_FromBytes). Qed.
@@ -372,7 +372,7 @@ Example C01_translated_functions_run :
     = GoLite.RRet (GoLite.VTuple [GoLite.VNil; x]) /\
   GoLite.call GoLiteC01.prog GoLite.no_ext 2 "OffsetAndSize.FromBytes"%string
       [z; GoLite.VInts [20; 26; 153; 190; 28; 0; 112; 17]%Z]
-    = GoLite.RRet (GoLite.VTuple [GoLite.VErr "errors.New: invalid byte slice length"%string; z]) /\
+    = GoLite.RRet (GoLite.VTuple [GoLite.VErr "errors.New"%string; z]) /\
   GoLite.call GoLiteC01.prog GoLite.no_ext 0 "Uint48tob"%string [GoLite.VInt 281474976710655%Z]
     = GoLite.RRet (GoLite.VInts [255; 255; 255; 255; 255; 255]%Z) /\
   GoLite.call GoLiteC01.prog GoLite.no_ext 0 "Uint48tob"%string [GoLite.VInt 281474976710656%Z] = GoLite.RPanic /\
